@@ -31,7 +31,7 @@ func init() {
 func (c18) ID() string    { return "C18" }
 func (c18) Level() string { return "exploration" }
 func (c18) Rule() string {
-	return "A case is an upstream and a downstream git repository with seeded trees (nested directories, names with space, tab, quote, backslash, non-ASCII and glob characters, names that are prefixes of one another and of the downstream path), 1-2 propagation directives (with or without upstream path — incl. the 'metadata' form gittuf generates for controllers —, downstream path with or without trailing slash), and a seeded schedule of steps: propagate (repeated 1-4 times), upstream records a new state, upstream revokes its latest entry, downstream gets an unrelated commit. After every propagate step the downstream tree and log are read back with `ls-tree -z` / `cat-file` and compared with the model: downstream path replaced by exactly the upstream's latest unskipped recorded subtree, every other path byte-identical, a propagation entry naming the upstream location and entry, and no commit and no entry when the content already matches. Distinct = distinct (tree-name classes, directive shape, step sequence, outcome vector); non-trivial = at least two propagate steps ran and the upstream changed between two of them or an odd name was present."
+	return "A case is an upstream and a downstream git repository with seeded trees (nested directories, names with space, tab, quote, backslash, non-ASCII and glob characters, names that are prefixes of one another and of the downstream path), 1-2 propagation directives in either order (with or without upstream path — incl. the 'metadata' form gittuf generates for controllers —, downstream path with or without trailing slash; the second copies the whole upstream tree or another upstream subtree to its own downstream path), and a seeded schedule of steps: propagate (repeated 1-4 times), upstream records a new state (changing everything, only paths outside, or only paths inside the first directive's upstream path, so that one directive can be up to date while the other is stale), upstream revokes its latest entry, downstream gets an unrelated commit. After every propagate step the downstream tree and log are read back with `ls-tree -z` / `cat-file` and compared with the model: downstream path replaced by exactly the upstream's latest unskipped recorded subtree, every other path byte-identical, a propagation entry naming the upstream location and entry, and no commit and no entry when the content already matches. Distinct = distinct (tree-name classes, directive shape, step sequence, outcome vector); non-trivial = at least two propagate steps ran and the upstream changed between two of them or an odd name was present."
 }
 func (c18) Components() map[string]string {
 	return map[string]string{"internal/propagation": "real", "pkg/gitinterface (tree.go, commit.go, references.go)": "real", "pkg/rsl": "real", "git 2.39 + tmpfs repositories": "real", "ground-truth reader": "harness (ls-tree -z, cat-file; not gitinterface's parsers)"}
@@ -48,18 +48,27 @@ func (c18) Generate(r *core.Rand, tier string, idx uint64) *core.Case {
 	c.Flags["odd"] = r.Chance(0.5)
 	c.Config["upPath"] = r.Intn(3)   // 0 none, 1 "sub", 2 "metadata"
 	c.Config["downPath"] = r.Intn(4) // vendor | vendor/ | deps/up | deps/up/
-	c.Config["second"] = r.Intn(3)   // 0: one directive; 1: second directive other path; 2: second directive from same upstream whole tree
+	c.Config["second"] = r.Intn(3)   // 0: one directive; 1: second directive copying the whole upstream tree; 2: second directive copying another upstream subtree
+	c.Config["order"] = r.Intn(2)    // 1: the second directive is listed first
 	n := r.Range(1, 4)
 	if tier == "thorough" {
 		n = r.Range(2, 7)
 	}
 	b := &opBuilder{}
+	upModes := []string{"all", "outside-first-upstream-path", "inside-first-upstream-path"}
+	if r.Chance(0.5) {
+		// the shape that tells directives apart: propagate, change part of the upstream, propagate again
+		b.add(world.Op{Kind: "propagate", N: 1})
+		b.add(world.Op{Kind: "upstreamCommit", N: r.Intn(1000), Mode: upModes[1+r.Intn(2)]})
+		n--
+	}
 	for i := 0; i < n; i++ {
 		switch r.Weighted([]int{6, 3, 1, 2}) {
 		case 0:
 			b.add(world.Op{Kind: "propagate", N: r.Range(1, 2)})
 		case 1:
-			b.add(world.Op{Kind: "upstreamCommit", N: r.Intn(1000)})
+			// Mode: what the new upstream state changes relative to the old one
+			b.add(world.Op{Kind: "upstreamCommit", N: r.Intn(1000), Mode: upModes[r.Intn(3)]})
 		case 2:
 			b.add(world.Op{Kind: "upstreamSkipLatest"})
 		case 3:
@@ -136,6 +145,13 @@ func (d c18) Execute(c *core.Case) (res *core.Result) {
 	} else if upPath == "metadata" {
 		must = []string{"metadata/root.json"}
 	}
+	upPath2 := "metadata"
+	if upPath == "metadata" {
+		upPath2 = "sub"
+	}
+	if c.Config["second"] == 2 {
+		must = append(must, map[string]string{"sub": "sub/f", "metadata": "metadata/root.json"}[upPath2])
+	}
 	// upstream history
 	upFiles := pickFiles(r, names, must, 0)
 	upTip := up.CommitTree(up.WriteFiles(upFiles), nil, "up0")
@@ -180,6 +196,13 @@ func (d c18) Execute(c *core.Case) (res *core.Result) {
 	case 1:
 		directives = append(directives, tufv02.NewPropagationDirective("d2", location, upRef, "", downRef, "third_party/whole"))
 		dspecs = append(dspecs, dspec{"", "third_party/whole"})
+	case 2:
+		directives = append(directives, tufv02.NewPropagationDirective("d2", location, upRef, upPath2, downRef, "third_party/part/"))
+		dspecs = append(dspecs, dspec{upPath2, "third_party/part"})
+	}
+	if len(directives) == 2 && c.Config["order"] == 1 {
+		directives[0], directives[1] = directives[1], directives[0]
+		dspecs[0], dspecs[1] = dspecs[1], dspecs[0]
 	}
 	oddPresent := false
 	for k := range upFiles {
@@ -224,6 +247,22 @@ func (d c18) Execute(c *core.Case) (res *core.Result) {
 		switch op.Kind {
 		case "upstreamCommit":
 			nf := pickFiles(core.NewRand(c.Seed^uint64(op.N)), names, must, op.N)
+			if upPath != "" && (op.Mode == "outside-first-upstream-path" || op.Mode == "inside-first-upstream-path") {
+				// keep one side of the first directive's upstream path exactly as it was
+				keepInside := op.Mode == "outside-first-upstream-path"
+				merged := map[string]string{}
+				for k, v := range upFiles {
+					if strings.HasPrefix(k, upPath+"/") == keepInside {
+						merged[k] = v
+					}
+				}
+				for k, v := range nf {
+					if strings.HasPrefix(k, upPath+"/") != keepInside {
+						merged[k] = v
+					}
+				}
+				nf = merged
+			}
 			upFiles = nf
 			upTip = up.CommitTree(up.WriteFiles(upFiles), []string{upTip}, fmt.Sprintf("up%d", i))
 			up.SetRef(upRef, upTip)
